@@ -13,8 +13,8 @@ package stats
 //vx:entry vxC09Limits reach=h-update,h-rolled,h-restart,h-reported,h-aged-out,l-disabled-rejected,l-shrunk,l-raised,l-legacy-off,l-legacy-on,l-may-be-purged,l-back-in-window
 //vx:stub github.com/AdguardTeam/AdGuardHome/internal/aghnet.NewIgnoreEngine vxC09NewIgnoreEngine
 //vx:note reference = the list of counted queries (hour that was current when counted, category); the API (GET /control/stats through handleStats) must report, per total / category / hourly cell, the number of listed queries whose hour is in (cur-limit, cur]; hourly series must add up to the totals, client table and queried+blocked domain tables must add up to the total; windows of more than 7 days: daily series never exceed the totals and the last day contains the current hour
-//vx:note vxC09History (no configuration change, every comparison is an equality): steps over {update not-filtered, update blocking category (rotating filtered/safe-browsing/safe-search/parental), hour +1 without flush, hour +1 / +limit-1 / +limit / +limit+2 with flush, flush alone, clean Close + New with the written-back configuration, POST stats_reset}, the API is read and compared after every step; quick: all 10^4 histories of 4 steps with a 3-hour window and update + 3 free steps with a 2-hour window; thorough adds update + 4 and update + 5 free steps (3-hour window) and update + 3 free steps with a 24-hour window
-//vx:note vxC09Limits (retention limit changes): initial window 2 h; steps over {update parental, update safe-browsing, hour +1 / +2 with flush, PUT stats/config/update 1 h on, 4 h on, 2 h 30 min off, POST stats_config 0 days (off + clear), 1 day, restart}; quick: update + 4 free steps; thorough: the same over 12 operations (plus POST stats_config 30 days, PUT 192 h: daily series) and update + 5 free steps; a query that was outside the window at an hour roll or restart and is inside again after the limit was raised may or may not be reported (lower bound = never-left queries, upper bound = all in-window queries); everything else is exact
+//vx:note vxC09History (no configuration change, every comparison is an equality): steps over {update not-filtered, update blocking category (rotating filtered/safe-browsing/safe-search/parental), hour +1 without flush, hour +1 / +limit-1 / +limit / +limit+2 with flush, flush alone, clean Close + New with the written-back configuration, POST stats_reset}, the API is read and compared after every step; quick: all 10^4 histories of 4 steps with a 3-hour window and update + 3 free steps with a 2-hour window; thorough adds update + 4 free steps, update + 5 free steps over 7 of the operations (3-hour window) and update + 3 free steps with a 24-hour window
+//vx:note vxC09Limits (retention limit changes): initial window 2 h; steps over {update parental, update safe-browsing, hour +1 / +2 with flush, PUT stats/config/update 1 h on, 4 h on, 2 h 30 min off, POST stats_config 0 days (off + clear), 1 day, restart}; quick: update + 4 free steps; thorough: the same over 12 operations (plus POST stats_config 30 days, PUT 192 h: daily series) and update + 5 free steps over 8 of the 10 operations; a query that was outside the window at an hour roll or restart and is inside again after the limit was raised may or may not be reported (lower bound = never-left queries, upper bound = all in-window queries); everything else is exact
 //vx:note vxC09Step: unit with symbolic 64-bit counters (2 domains, 1 blocked domain, 2 clients, 1 upstream) and an entry with any category >= 0, domain/client known | new | empty, statistics on | off | limit 0, or 1..2 upstream results (cached / failed symbolic, known | new address): counted entries add exactly 1 to the total, to their own category cell, to exactly one of the domain tables and to the client; entries not counted change nothing.  vxC09Codec: the same unit survives serialize -> flushUnitToDB -> loadUnitFromDB -> deserialize (time sum excluded: stored as an average)
 //vx:note vxC09Aggregate: dataFromUnits on windows of 1, 24, 191 hours (hourly) and 192, 720 hours (daily) with any current hour >= 10000; the newest and oldest units carry symbolic counters < 2^40 (quick 24 / 4, thorough 48 / 8 units incl. the units 23 and 24), the others are empty: totals = sums over units, hourly cells = unit counts, daily sums between the sums of the last (days-1)*24+1 and days*24 hours
 //vx:note restricted concurrency claim (instead of interleavings): the engine checks that every access to StatsCtx.curr and to the counters of the current unit happens with currMu held (vx.Guard), that the hourly flush touches the database only with confMu and currMu write-held (swap-then-persist is one critical section against Update and against the API read, which holds confMu for its whole duration), and that no operation returns with a lock held
@@ -953,7 +953,8 @@ func vxC09History() {
 	vxC09Env.clock = vxC09BaseHour
 
 	// quick: 4 free steps, window of 3 hours | an update + 3 free steps, 2 hours
-	// thorough adds: an update + 4 and + 5 free steps, window of 3 hours |
+	// thorough adds: an update + 4 free steps and + 5 steps over 7 operations,
+	// window of 3 hours |
 	// an update + 3 free steps, window of 24 hours
 	limit, steps, free := uint32(3), 4, true
 	nb := 2
@@ -974,12 +975,21 @@ func vxC09History() {
 	r := &vxC09Ref{cur: vxC09Env.clock, limit: limit, enabled: true}
 	s := vxC09New(time.Duration(limit)*time.Hour, true)
 
+	// the longest histories run over 7 of the 10 operations
+	short := []int{0, 1, 3, 4, 5, 7, 8}
 	for i := 0; i < steps; i++ {
 		n := 10
+		if steps == 6 {
+			n = len(short)
+		}
 		if i == 0 && !free {
 			n = 2
 		}
-		s = vxC09HistoryStep(s, r, i, vx.Choice("op", n))
+		op := vx.Choice("op", n)
+		if steps == 6 {
+			op = short[op]
+		}
+		s = vxC09HistoryStep(s, r, i, op)
 	}
 	if vx.GuardHits() > 0 {
 		vx.Reach("h-guarded")
@@ -993,8 +1003,8 @@ func vxC09Limits() {
 	vxC09Env.clock = vxC09BaseHour
 
 	// quick: an update + 4 free steps over 10 operations; thorough: + 4 free
-	// steps over 12 operations (with windows of 8 and 30 days) | + 5 free steps
-	// over 10 operations
+	// steps over 12 operations (with windows of 8 and 30 days) | + 5 steps over
+	// 8 operations
 	steps, nops := 5, 10
 	if vx.Thorough() {
 		if vx.Choice("bounds", 2) == 0 {
@@ -1003,15 +1013,24 @@ func vxC09Limits() {
 			steps = 6
 		}
 	}
+	// the longest histories run over 8 of the 10 operations
+	short := []int{0, 1, 2, 3, 4, 5, 6, 8}
 	r := &vxC09Ref{cur: vxC09Env.clock, limit: 2, enabled: true}
 	s := vxC09New(2*time.Hour, true)
 
 	for i := 0; i < steps; i++ {
 		n := nops
+		if steps == 6 {
+			n = len(short)
+		}
 		if i == 0 {
 			n = 1
 		}
-		switch op := vx.Choice("op", n); op {
+		op := vx.Choice("op", n)
+		if steps == 6 {
+			op = short[op]
+		}
+		switch op {
 		case 0:
 			vxC09Update(s, r, RParental, 0)
 		case 1:
